@@ -40,6 +40,17 @@ def gen_mix(rng, tier, weights=None, sizes=None):
     for base in rng.sample(chunks, min(len(chunks), 20 if quick else 400)):
         for p in ftlgen.g3_prefixes(base):
             yield case(p)
+    # EVERY prefix of a fixed set of small sources that together use every construct (deterministic: does not depend on
+    # which chunks the sample above happened to pick): input truncated after every token of a select, a variant key,
+    # a `*`, a call, a named argument, an escape, an attribute, a term, a comment - LF and CRLF
+    core = ["k = { $x ->\n    [one] One\n   *[other] { $n } é\n } t\n",
+            "-t = T\n    .a = A { -t.a(x: 1, y: \"s\\u00e9\") ->\n       *[a] { FN(-t, m.a, 1.5, k: \"v\") }\n    }\n",
+            "# c\n## g\n### r\nm =\n    line\n\n    { \"{\" }{ { m } }\n    .at = { 1 ->\n [0] z\n *[1.0] o\n }\n",
+            "a = { NUMBER($n, minimumFractionDigits: 2) } { -b(c: -1) } { d.e } \\ \"q\"\n"]
+    for src in core:
+        for body in (src, src.replace("\n", "\r\n")):
+            for p in ftlgen.g3_prefixes(body):
+                yield case(p)
     # first character of the INPUT: byte order mark, digits, punctuation, lone CR, non-ASCII ... in front of a
     # message, a term, a comment, and as the whole input (offset 0 has no previous line)
     firsts = ["\ufeff", "1", "=", ".", "\t", "\r", "\r\n", "é", "}", "{", " ", "\n", "#", "-", "*", "[", "\"", "\\", "😀"]
